@@ -18,7 +18,7 @@ EXPLANATION = (
     "value; R04.4 the i-th interpolation coordinate comes from the parameter whose role is the i-th "
     "table axis; R04.5 the result is z * 10**log_e_nu and the sampler returns the iterator's output "
     "operand (allocated or supplied); R04.8 a supplied result array has a floating element type that does not come "
-    "from the energies; R04.6 the bracketing structure of the row-wise inversion (complementary masks, paired "
+    "from the energies; R04.9 the tau stage modifies none of the arrays it is given before the sampler reads them; R04.6 the bracketing structure of the row-wise inversion (complementary masks, paired "
     "(x0,y0)/(x1,y1), linear formula). NOT decided: F(z)=u numerically, monotonicity in u, z within "
     "the tabulated range (values; table preconditions are audited under C18)."
 )
@@ -383,6 +383,27 @@ def run(ck, ctx):
 
     bracketing_rules(ck, "R04.6", I)
     configured_table_rules(ck, "R04.7", ctx, "tau_cdf_grid", "CDF table")
+
+    # ---------------------------------------------------------------- R04.9 the stage samples at the angles it was given
+    def stage_arguments():
+        """The tau stage evaluates the exit probability and then samples the energy on the SAME angle and energy
+        arrays: the regions of the statement (below / inside / above the table) are regions of the caller's angles
+        only if nothing on the way - the exit-probability step included - writes into those arrays."""
+        from .effects import writes
+        T2 = TausCtx(ctx)
+        r = T2.run_call()
+        ws = writes(r, kinds=("input",))
+        for e, hit in ws:
+            f = e.funcs()[-1] if e.funcs() else "Taus.__call__"
+            tgt = ", ".join(sorted({x.attr.split("#")[0] for x in hit if x.op == "Input"}))
+            ck.ob("R04.9", f"tau stage: argument '{tgt}' is not modified before the energy sampler reads it [{f} at "
+                  f"{e.where()}]", False, e.node, f, f"{e.data.get('how')} writes into an object that may be the "
+                  "caller's array: angles clamped there are sampled as in-table angles",
+                  construct=f"{f}: in-place {e.data.get('how')} on parameter {tgt}")
+        ck.ob("R04.9", "the tau stage modifies none of the arrays it is given (the sampler sees the caller's angles and "
+              "energies)", not ws, r.value, "Taus.__call__",
+              f"{sum(1 for e in r.effects if e.kind == 'write')} in-place operations inspected")
+    ck.guard(stage_arguments, "R04.9")
 
 
 def configured_table_rules(ck, rule, ctx, attr, what):
